@@ -20,9 +20,9 @@ import (
 )
 
 type vWCReq struct {
-	name          string
-	req           string
-	l22, l3, off  bool
+	name         string
+	req          string
+	l22, l3, off bool
 }
 
 func vWCRequests() []vWCReq {
@@ -72,22 +72,27 @@ type vWCModel struct {
 	starts   int
 }
 
-func vWCNew(base string) *vWCModel {
+// projMask: bit ch set = channel ch has projectors (and so is eligible for OFF files)
+func vWCNew(base string, projMask int) *vWCModel {
 	m := &vWCModel{base: base, npre: 3, nsamp: 6, nextTag: 100}
 	m.src = vNewSource(2, m.npre, m.nsamp)
 	m.ds = m.src.ds
 	m.ds.subframeDivisions = 1
 	m.ds.writingState.BasePath = base
-	// channel 0 has projectors, channel 1 has none
-	proj := mat.NewDense(2, m.nsamp, nil)
-	basis := mat.NewDense(m.nsamp, 2, nil)
-	for j := 0; j < m.nsamp; j++ {
-		proj.Set(0, j, 1)
-		proj.Set(1, j, float64(j))
-		basis.Set(j, 0, 1.0/float64(m.nsamp))
-	}
-	if err := m.ds.ConfigureProjectorsBases(0, proj, basis, "verif model"); err != nil {
-		panic(err)
+	for ch := 0; ch < 2; ch++ {
+		if projMask&(1<<ch) == 0 {
+			continue
+		}
+		proj := mat.NewDense(2, m.nsamp, nil)
+		basis := mat.NewDense(m.nsamp, 2, nil)
+		for j := 0; j < m.nsamp; j++ {
+			proj.Set(0, j, 1)
+			proj.Set(1, j, float64(j))
+			basis.Set(j, 0, 1.0/float64(m.nsamp))
+		}
+		if err := m.ds.ConfigureProjectorsBases(ch, proj, basis, "verif model"); err != nil {
+			panic(err)
+		}
 	}
 	return m
 }
@@ -242,7 +247,7 @@ func (m *vWCModel) finish(x *vexp.X) (string, string) {
 	// where did each tag land?
 	type key struct {
 		pattern, typ string
-		ch       int
+		ch           int
 	}
 	landed := map[key]map[int64]int{}
 	for _, pat := range m.patterns {
@@ -313,11 +318,14 @@ func (m *vWCModel) finish(x *vexp.X) (string, string) {
 
 var vWCSeq int
 
-func vWCRun(x *vexp.X, reqs []vWCReq, hist []int) (string, vexp.Result) {
+var vWCMaskNames = []string{"proj-on-ch0", "proj-on-ch1", "proj-on-both", "proj-on-none"}
+var vWCMasks = []int{1, 2, 3, 0}
+
+func vWCRun(x *vexp.X, reqs []vWCReq, hist []int, projMask int) (string, vexp.Result) {
 	vWCSeq++
 	base := filepath.Join(os.Getenv("TMPDIR"), fmt.Sprintf("wc%d", vWCSeq))
 	os.MkdirAll(base, 0755)
-	m := vWCNew(base)
+	m := vWCNew(base, projMask)
 	defer m.close()
 	var names []string
 	for _, oi := range hist {
@@ -346,17 +354,27 @@ func TestVerifC06(t *testing.T) {
 		names = append(names, q.name)
 	}
 	sort.Strings(names)
-	r.SetBound(fmt.Sprintf("BFS to closure over %d requests (%s), one tagged record per channel after every request, channel 0 with projectors and channel 1 without; plus un-merged DFS of all request sequences to depth %d", len(reqs), strings.Join(names, ", "), depth))
-	r.BFS("bfs", vexp.BFSSpec{NumOps: len(reqs), Run: func(x *vexp.X, hist []int) (string, vexp.Result) { return vWCRun(x, reqs, hist) }})
-	for first := range reqs {
-		first := first
-		r.DFS(fmt.Sprintf("dfs/first=%s", reqs[first].name), -1, func(x *vexp.X) vexp.Result {
-			hist := []int{first}
-			for len(hist) < depth {
-				hist = append(hist, x.Choose(len(reqs)))
-			}
-			_, res := vWCRun(x, reqs, hist)
-			return res
-		})
+	r.SetBound(fmt.Sprintf("BFS to closure over %d requests (%s), one tagged record per channel after every request, for each projector assignment of two channels (%s); plus un-merged DFS of all request sequences to depth %d (quick: depth-1 for the two uniform assignments)", len(reqs), strings.Join(names, ", "), strings.Join(vWCMaskNames, ", "), depth))
+	for mi, mask := range vWCMasks {
+		mask := mask
+		r.BFS("bfs/"+vWCMaskNames[mi], vexp.BFSSpec{NumOps: len(reqs), Run: func(x *vexp.X, hist []int) (string, vexp.Result) { return vWCRun(x, reqs, hist, mask) }})
+	}
+	for mi, mask := range vWCMasks {
+		mask := mask
+		for first := range reqs {
+			first := first
+			r.DFS(fmt.Sprintf("dfs/%s/first=%s", vWCMaskNames[mi], reqs[first].name), -1, func(x *vexp.X) vexp.Result {
+				hist := []int{first}
+				d := depth
+				if !r.Thorough() && mask != 1 && mask != 2 {
+					d = depth - 1 // quick: the uniform assignments one request shorter
+				}
+				for len(hist) < d {
+					hist = append(hist, x.Choose(len(reqs)))
+				}
+				_, res := vWCRun(x, reqs, hist, mask)
+				return res
+			})
+		}
 	}
 }
